@@ -224,3 +224,152 @@ def atom_styles():
 def style_allowed(style, units):
     subs = style.split()[1:] if style.startswith('hybrid') else [style]
     return not (units == 'electron' and any(s in DENSITY_STYLES for s in subs))
+
+
+# ============================================================================= column descriptions (round 3)
+# The writers and loaders of the 'table' and 'atom_dump' formats take the description of the columns either as a
+# `prop_info` list of dicts ('prop_name' + optional 'table_name', 'shape', 'unit', 'dtype') or as the separate lists
+# prop_name / table_name / shape / unit / dtype, where whole lists may be left out and `unit` / `dtype` may hold None
+# entries ("no conversion" / "infer").  A *truth* is my own list of
+#     {'name': str, 'shape': tuple, 'unit': None | 'scaled' | unit string, 'dtype': None | 'int64' | 'float64'}
+# and ``describe`` renders it through one of the documented routes, leaving out only what the docstrings say is then
+# filled in with the same meaning (rules re-derived from the docstrings, see the comments inside).
+
+# LAMMPS `dump custom` keywords of the standard per-atom quantities (LAMMPS manual, dump command) under atomman's names
+LAMMPS_NAMES = {'atom_id': ['id'], 'atype': ['type'], 'pos': ['x', 'y', 'z'], 'spos': ['xs', 'ys', 'zs'],
+                'upos': ['xu', 'yu', 'zu'], 'supos': ['xsu', 'ysu', 'zsu'], 'velocity': ['vx', 'vy', 'vz'],
+                'force': ['fx', 'fy', 'fz'], 'charge': ['q'], 'mass': ['mass'], 'radius': ['radius'],
+                'torque': ['tqx', 'tqy', 'tqz'], 'm_id': ['mol'], 'mu': ['mux', 'muy', 'muz']}
+ROUTES_DUMP = ('lists', 'lists', 'prop_info')
+ROUTES_LOAD = ('lists', 'lists', 'prop_info', 'returned')
+FLAVOURS = ('default', 'lammps', 'prefixed')
+
+
+def default_names(name, shape):
+    """name[i][j].. in C order (the documented default column names of a property)"""
+    out = [name]
+    for dim in shape:
+        out = [x + '[%d]' % i for x in out for i in range(dim)]
+    return out
+
+
+def column_names(e, flavour, side):
+    """column names of one truth entry: documented default, LAMMPS keyword or a free prefixed name ('id' for the ids
+    in the last two: that is how the loaders know that ids are present)"""
+    name, shape = e['name'], tuple(e['shape'])
+    if name == 'atom_id' and flavour != 'default':
+        return ['id']
+    ncol = int(np.prod(shape)) if shape else 1
+    if flavour == 'lammps' and name in LAMMPS_NAMES and len(LAMMPS_NAMES[name]) == ncol:
+        return list(LAMMPS_NAMES[name])
+    if flavour == 'prefixed':
+        return ['c_' + x.replace('[', '_').replace(']', '') for x in default_names(name, shape)]
+    return default_names(name, shape)
+
+
+def _shape_from_count(shape):
+    """is `shape` what the documented inference from the number of column names gives (1 -> (), n -> (n,))?"""
+    shape = tuple(shape)
+    return shape == () or (len(shape) == 1 and shape[0] >= 2)
+
+
+def describe(kind, side, via, truth, mask, flavour):
+    """keyword arguments that describe the columns `truth` to dump/load of format `kind` ('table' | 'atom_dump').
+    via 'lists': prop_name + those of table_name / shape / unit / dtype that the bits of `mask` do not leave out;
+    via 'prop_info': one dict per property, keys left out per property by the bits of `mask`.
+    Leaving out is only done where the docstrings give the left-out item the same meaning:
+      dtype      - always ("Values of None will infer the data type ... If not given, all values will be None")
+      unit       - table only and only a None ("If not given, all unit values will be set to None"); for atom_dump the
+                   two docstrings disagree on what a missing unit list means (standard LAMMPS units vs none), so the
+                   unit is always stated there
+      shape      - when table_name is given and the shape is () or (k>=2,) ("will be inferred from the length of each
+                   table_name value")
+      table_name - when the shape is given ("based on the prop_name (and shape) values")
+      both       - lists, dump side (shapes are taken from the system); load('atom_dump') lists for LAMMPS-named
+                   quantities ("will be taken from standard LAMMPS parameter names") and scalars ("left at ()");
+                   a prop_info dict of a scalar
+    returns (kwargs, labels, id_named) - id_named: the description calls the atom_id column 'id' (explicitly, or
+    through the LAMMPS keyword that atom_dump's lists route supplies), i.e. the loader is told that ids are present"""
+    labs = set()
+    n = len(truth)
+    names = [column_names(e, flavour, side) for e in truth]
+    has_id = any(e['name'] == 'atom_id' for e in truth)
+    std_lists = kind == 'atom_dump' and via == 'lists'
+
+    def lammps_named(e):
+        return std_lists and e['name'] in LAMMPS_NAMES and _shape_from_count(e['shape']) and \
+            len(LAMMPS_NAMES[e['name']]) == (int(np.prod(e['shape'])) if tuple(e['shape']) else 1)
+
+    if via == 'lists':
+        o_dtype, o_tn, o_shape, o_unit = bool(mask & 1), bool(mask & 2), bool(mask & 4), bool(mask & 8)
+        if o_unit and not (kind == 'table' and all(e['unit'] is None for e in truth)):
+            o_unit = False
+        if o_tn and o_shape:
+            ok = side == 'dump' or all(lammps_named(e) or tuple(e['shape']) == () for e in truth)
+            if not ok:
+                o_shape = False
+        if o_tn and not o_shape:
+            # atom_dump lists route: a LAMMPS-named property takes the keyword names, whose count must fit the shape
+            if std_lists and any(e['name'] in LAMMPS_NAMES and not lammps_named(e) for e in truth):
+                o_tn = False
+        if o_shape and not o_tn and not all(_shape_from_count(e['shape']) for e in truth):
+            o_shape = False
+        kw = {'prop_name': [e['name'] for e in truth]}
+        if not o_tn:
+            # a single column may be named by a plain string
+            kw['table_name'] = [nm[0] if len(nm) == 1 and (mask >> (5 + i)) & 1 else list(nm) for i, nm in enumerate(names)]
+        if not o_shape:
+            kw['shape'] = [tuple(e['shape']) for e in truth]
+        if not o_unit:
+            kw['unit'] = [e['unit'] for e in truth]
+        if not o_dtype:
+            kw['dtype'] = [e['dtype'] for e in truth]
+        for flag, lab in ((o_tn, 'no_table_name'), (o_shape, 'no_shape'), (o_unit, 'no_unit'), (o_dtype, 'no_dtype')):
+            if flag:
+                labs.add(lab)
+        id_named = has_id and (std_lists if o_tn else any(e['name'] == 'atom_id' and nm == ['id'] for e, nm in zip(truth, names)))
+        return kw, labs, id_named
+    pinfo = []
+    id_named = False
+    for i, e in enumerate(truth):
+        b = (mask >> (4 * (i % 7))) & 15
+        o_dtype, o_tn, o_shape, o_unit = bool(b & 1), bool(b & 2), bool(b & 4), bool(b & 8)
+        shape = tuple(e['shape'])
+        if o_unit and not (kind == 'table' and e['unit'] is None):
+            o_unit = False
+        if o_dtype and e['dtype'] is not None:
+            o_dtype = False
+        if o_tn and o_shape and shape != ():
+            o_shape = False
+        if o_shape and not o_tn and not _shape_from_count(shape):
+            o_shape = False
+        d = {'prop_name': e['name']}
+        if not o_tn:
+            d['table_name'] = names[i][0] if len(names[i]) == 1 and (mask >> (29 + i % 3)) & 1 else list(names[i])
+            if e['name'] == 'atom_id' and names[i] == ['id']:
+                id_named = True
+        if not o_shape:
+            d['shape'] = shape
+        if not o_unit:
+            d['unit'] = e['unit']
+        if not o_dtype:
+            d['dtype'] = e['dtype']
+        if o_tn or o_shape or o_unit or o_dtype:
+            labs.add('dict_keys_left_out')
+        pinfo.append(d)
+    return {'prop_info': pinfo}, labs, id_named
+
+
+_mask = st.integers(0, 2 ** 32 - 1)
+_dvia = st.sampled_from(ROUTES_DUMP)
+_lvia = st.sampled_from(ROUTES_LOAD)
+_flav = st.sampled_from(FLAVOURS)
+_dt3 = st.integers(0, 2)
+
+
+@st.composite
+def column_routes(draw, names):
+    """how the columns are described on the two sides + an explicit-or-None dtype choice per property"""
+    return {'dvia': draw(_dvia), 'dmask': draw(_mask), 'dflav': draw(_flav),
+            'lvia': draw(_lvia), 'lmask': draw(_mask), 'lflav': draw(_flav),
+            'dtypes': [draw(_dt3) == 0 for _ in names]}
